@@ -119,12 +119,18 @@ Print Assumptions C04_table_nonvacuous.
 Require Import PonyV.Model.C04Ext PonyV.Model.C04Eval PonyV.Proofs.C04ExtProofs PonyV.Proofs.C04EvalProofs.
 Open Scope nat_scope.
 
-(* soundness of the marking: every external of a well-formed query body - in the context that holds where it stands: the query
-   variables ctx plus the parameters of enclosing lambdas - mentions none of those names and contains no lambda, so that evaluating
+(* `mwf`: the shape the marking relies on (names and constants have no children, a field has one); every tree that is well-formed for
+   the printer is (C04_wf_mwf); dict / set displays and nested generator expressions (subqueries) are admitted as well *)
+Theorem C04_wf_mwf : forall e, wf e = true -> mwf e = true.
+Proof. exact wf_mwf. Qed.
+Print Assumptions C04_wf_mwf.
+
+(* soundness of the marking: every external of a query body - in the context that holds where it stands: the query
+   variables ctx plus the parameters of enclosing lambdas and the targets of enclosing subquery for-clauses - mentions none of those names and contains no lambda, so that evaluating
    it in the caller's scope is meaningful.  (No side condition since 5e60a83: a list display / starred argument is external only if
    all its items are.) *)
 Theorem C04_marking_sound : forall fclass ctx e p c' s,
-  wf e = true ->
+  mwf e = true ->
   In p (externals fclass ctx e) -> sub_ctx ctx e p = Some (c', s) ->
   mentions c' s = false /\ lambda_free s = true.
 Proof. exact externals_sound. Qed.
@@ -144,8 +150,8 @@ Print Assumptions C04_marking_maximal.
    eval of the text ast2src prints for s, in the caller's scope - is the value s has in place, under any binding of the query
    variables and lambda parameters c' that agrees with the caller's scope on all other names *)
 Theorem C04_bound_value : forall fclass ctx e p c' s rho_caller rho_place,
-  wf e = true ->
-  In p (externals fclass ctx e) -> sub_ctx ctx e p = Some (c', s) -> expr_kindb (ekind s) = true ->
+  mwf e = true ->
+  In p (externals fclass ctx e) -> sub_ctx ctx e p = Some (c', s) -> wf s = true -> expr_kindb (ekind s) = true ->
   (forall x, mem x c' = false -> rho_caller x = rho_place x) ->
   exists n, forall f, n <= f -> eval_tokens f (print pony_style s) rho_caller = ceval rho_place s.
 Proof. exact bound_value. Qed.
@@ -169,11 +175,19 @@ Theorem C04_varkeys_filters_disjoint : forall fn1 fn2 ck srcs1 srcs2 k, fn1 <> f
 Proof. exact varkeys_filters_disjoint. Qed.
 Print Assumptions C04_varkeys_filters_disjoint.
 
+(* a subquery: `p.x in (s.y for s in S if s.z == a + 1 and s.w == p.x)`: externals S and a + 1, the latter in the context [s; p] *)
+Example C04_subquery_nonvacuous :
+  externals (fun _ => FPlain) [[112]%Z] demo_subquery = [[1; 0]; [1; 1; 0; 1]] /\
+  sub_ctx [[112]%Z] demo_subquery [1; 1; 0; 1] = Some ([[115]%Z; [112]%Z], Node (LOp KAdd) [nmz 97; Node (LConst [49]%Z) []]) /\
+  mwf demo_subquery = true /\ wf demo_subquery = false.
+Proof. exact demo_subquery_ok. Qed.
+Print Assumptions C04_subquery_nonvacuous.
+
 (* non-vacuity: `p.x == (a - 1) * 2 + b` with a = 2, b = 0 in the caller's scope: one external, (a - 1) * 2 + b, bound as 2;
    `p.n == (n + 'e', (a, 'x'))[b]` with n = 'Jo': one external, bound as 'Joe' *)
 Example C04_bound_value_nonvacuous :
   externals (fun _ => FPlain) [[112]%Z] demo_query = [[1]] /\ sub_ctx [[112]%Z] demo_query [1] = Some ([[112]%Z], demo_ext) /\
-  wf demo_query = true /\
+  mwf demo_query = true /\ wf demo_ext = true /\
   eval_tokens 40 (print pony_style demo_ext) demo_env = Some (VInt 2) /\
   externals (fun _ => FPlain) [[112]%Z] (Node (LCompare [CEq]) [Node (LAttribute [110]%Z) [nmz 112]; demo_str]) = [[1]] /\
   eval_tokens 60 (print pony_style demo_str) demo_env = Some (VStr [74; 111; 101]%Z).
